@@ -176,3 +176,30 @@ MUTANTS += [
     {"id": "C07-get-unwrap-or-else-unguarded", "prop": "C07", "expect": "U2-GET/surface::Surface::get/missing-",
      "edits": [("src/surface.rs", _G, "        let inside = pos.row < shape.height && pos.col < shape.width;\n        inside.then_some(()).map_or_else(|| self.data().get(shape.offset(pos)), |_| None)\n")]},
 ]
+
+# the offset computed by one stage of the chain and used as the index by the next (`.map(|pos| shape.offset(pos)).for_each(|o| data[o] = v)`),
+# a `for` loop over the chain of offsets
+_CHAIN_POS = "        (0..shape.height)\n            .flat_map(|row| (0..shape.width).map(move |col| Position::new(row, col)))\n"
+MUTANTS += [
+    {"id": "C07-benign-fill-offset-stage-chain", "prop": "C07", "benign": True,
+     "edits": [("src/surface.rs", _FILL_LOOP, _CHAIN_POS + "            .map(|pos| shape.offset(pos))\n            .for_each(|offset| data[offset] = item.clone());")]},
+    {"id": "C07-benign-clear-offset-stage-chain", "prop": "C07", "benign": True,
+     "edits": [("src/surface.rs", _CLEAR_LOOP, _CHAIN_POS + "            .map(|pos| shape.offset(pos))\n            .for_each(|offset| data[offset] = Default::default());")]},
+    {"id": "C07-benign-clear-offset-stage-inspect", "prop": "C07", "benign": True,
+     "edits": [("src/surface.rs", _CLEAR_LOOP, "        let offsets = (0..shape.height)\n            .flat_map(|row| (0..shape.width).map(move |col| shape.offset(Position::new(row, col))));\n        offsets.for_each(|at| data[at] = Default::default());")]},
+    {"id": "C07-clear-index-stage-chain", "prop": "C07", "expect": "U8-INDEX/surface::SurfaceMut::clear::{closure#2}/data-index",
+     "edits": [("src/surface.rs", _CLEAR_LOOP, _CHAIN_POS + "            .map(|pos| shape.index(pos))\n            .for_each(|offset| data[offset] = Default::default());")]},
+    {"id": "C07-fill-offset-stage-chain-swapped", "prop": "C07", "expect": "U5-LOOPS",
+     "edits": [("src/surface.rs", _FILL_LOOP, "        (0..shape.width)\n            .flat_map(|row| (0..shape.height).map(move |col| Position::new(row, col)))\n            .map(|pos| shape.offset(pos))\n            .for_each(|offset| data[offset] = item.clone());")]},
+    {"id": "C07-fill-offset-stage-plus-one", "prop": "C07", "expect": "U8-INDEX/surface::SurfaceMut::fill::{closure#2}/data-index",
+     "edits": [("src/surface.rs", _FILL_LOOP, _CHAIN_POS + "            .map(|pos| shape.offset(pos))\n            .for_each(|offset| data[offset + 1] = item.clone());")]},
+    {"id": "C07-benign-fill-for-over-offsets", "prop": "C07", "benign": True,
+     "edits": [("src/surface.rs", _FILL_LOOP, "        for offset in (0..shape.height)\n            .flat_map(|row| (0..shape.width).map(move |col| Position::new(row, col)))\n            .map(|pos| shape.offset(pos))\n        {\n            data[offset] = item.clone();\n        }")]},
+]
+
+MUTANTS += [
+    {"id": "C07-fill-for-over-indices", "prop": "C07", "expect": "U8-INDEX/surface::SurfaceMut::fill/data-index",
+     "edits": [("src/surface.rs", _FILL_LOOP, "        for offset in (0..shape.height)\n            .flat_map(|row| (0..shape.width).map(move |col| Position::new(row, col)))\n            .map(|pos| shape.index(pos))\n        {\n            data[offset] = item.clone();\n        }")]},
+    {"id": "C07-fill-for-over-offsets-swapped", "prop": "C07", "expect": "U5-LOOPS",
+     "edits": [("src/surface.rs", _FILL_LOOP, "        for offset in (0..shape.width)\n            .flat_map(|row| (0..shape.height).map(move |col| Position::new(row, col)))\n            .map(|pos| shape.offset(pos))\n        {\n            data[offset] = item.clone();\n        }")]},
+]
